@@ -14,6 +14,7 @@ import (
 	"encoding/json"
 	"flag"
 	"fmt"
+	"math"
 	"os"
 	"regexp"
 	"runtime"
@@ -31,10 +32,11 @@ import (
 // ------------------------------------------------------------------------------------------ scenario
 
 type action struct {
-	K string `json:"k"` // st si im ct ci cim rol snw throw
-	A int    `json:"a"` // callback id | handle slot
-	D int    `json:"d"` // delay ms
-	H int    `json:"h"` // handle slot to store into
+	K string `json:"k"`           // st si im ct ci cim rol snw throw
+	A int    `json:"a"`           // callback id | handle slot
+	D int    `json:"d"`           // delay ms
+	H int    `json:"h"`           // handle slot to store into
+	X string `json:"x,omitempty"` // exotic JavaScript delay (overrides D): 1e19 1e300 inf -inf nan 2p63 -1e19 0.9 1e13 str
 }
 
 type step struct {
@@ -451,14 +453,16 @@ func (r *run) doAction(vm *goja.Runtime, a action) {
 	switch a.K {
 	case "st":
 		r.api("willset", "timeout")
-		h := r.callGlobal(vm, "setTimeout", r.jsFunc(vm, a.A, "timeout"), vm.ToValue(a.D))
+		dv, eff := jsDelay(vm, a)
+		h := r.callGlobal(vm, "setTimeout", r.jsFunc(vm, a.A, "timeout"), dv)
 		r.jsH[a.H] = h
-		r.api("set", "timeout", r.jobIDL(exportOf(h)), fmt.Sprint(a.D), fmt.Sprint(a.A))
+		r.api("set", "timeout", r.jobIDL(exportOf(h)), fmt.Sprint(eff), fmt.Sprint(a.A))
 	case "si":
 		r.api("willset", "interval")
-		h := r.callGlobal(vm, "setInterval", r.jsFunc(vm, a.A, "interval"), vm.ToValue(a.D))
+		dv, eff := jsDelay(vm, a)
+		h := r.callGlobal(vm, "setInterval", r.jsFunc(vm, a.A, "interval"), dv)
 		r.jsH[a.H] = h
-		r.api("set", "interval", r.jobIDL(exportOf(h)), fmt.Sprint(a.D), fmt.Sprint(a.A))
+		r.api("set", "interval", r.jobIDL(exportOf(h)), fmt.Sprint(eff), fmt.Sprint(a.A))
 	case "im":
 		h := r.callGlobal(vm, "setImmediate", r.jsFunc(vm, a.A, "immediate"))
 		r.jsH[a.H] = h
@@ -486,6 +490,39 @@ func (r *run) doAction(vm *goja.Runtime, a action) {
 			panic(vm.ToValue("boom"))
 		}
 	}
+}
+
+// jsDelay: the JavaScript value passed as the delay and the delay (ms) the property speaks about: a delay beyond what
+// the scenario can wait for is "never" (9e12 ms), NaN / negative / below 1 ms is 0 (truncation as in Node)
+func jsDelay(vm *goja.Runtime, a action) (goja.Value, int64) {
+	const never = 9000000000000
+	switch a.X {
+	case "":
+		return vm.ToValue(a.D), int64(a.D)
+	case "1e19":
+		return vm.ToValue(1e19), never
+	case "1e300":
+		return vm.ToValue(1e300), never
+	case "inf":
+		return vm.ToValue(math.Inf(1)), never
+	case "2p63":
+		return vm.ToValue(9223372036854775808.0), never
+	case "1e13":
+		return vm.ToValue(1e13), never
+	case "max":
+		return vm.ToValue(math.MaxFloat64), never
+	case "-inf":
+		return vm.ToValue(math.Inf(-1)), 0
+	case "-1e19":
+		return vm.ToValue(-1e19), 0
+	case "nan":
+		return vm.ToValue(math.NaN()), 0
+	case "0.9":
+		return vm.ToValue(0.9), 0
+	case "str":
+		return vm.ToValue("1e19"), never
+	}
+	return vm.ToValue(a.D), int64(a.D)
 }
 
 func exportOf(v goja.Value) interface{} {
@@ -821,9 +858,9 @@ func (g *gen) actions(ncb int, depth int) []action {
 		switch x := r.Intn(100); {
 		// handle slots: 0-1 timeouts, 2-3 intervals, 4-5 immediates (a clear mostly hits a handle of its own kind)
 		case x < 25:
-			out = append(out, action{K: "st", A: r.Intn(ncb), D: r.Intn(4), H: r.Intn(2)})
+			out = append(out, action{K: "st", A: r.Intn(ncb), D: r.Intn(4), H: r.Intn(2), X: g.exotic()})
 		case x < 35:
-			out = append(out, action{K: "si", A: r.Intn(ncb), D: r.Intn(3), H: 2 + r.Intn(2)})
+			out = append(out, action{K: "si", A: r.Intn(ncb), D: r.Intn(3), H: 2 + r.Intn(2), X: g.exotic()})
 		case x < 55:
 			out = append(out, action{K: "im", A: r.Intn(ncb), H: 4 + r.Intn(2)})
 		case x < 67:
@@ -842,6 +879,17 @@ func (g *gen) actions(ncb int, depth int) []action {
 		}
 	}
 	return out
+}
+
+// exotic: one JavaScript delay in eight is not a small integer
+func (g *gen) exotic() string {
+	if !g.r.Chance(12) {
+		return ""
+	}
+	xs := []string{"1e19", "1e300", "inf", "2p63", "1e13", "max", "-inf", "-1e19", "nan", "0.9", "str"}
+	x := xs[g.r.Intn(len(xs))]
+	g.st.Hit("jsdelay:" + x)
+	return x
 }
 
 // slot picks a handle slot of the given kind, sometimes a foreign or empty one
